@@ -4,6 +4,8 @@
 package engines
 
 import (
+	"strings"
+
 	"github.com/kercylan98/vivid/verifharness/gen"
 	"github.com/kercylan98/vivid/verifharness/rec"
 )
@@ -21,7 +23,7 @@ type Ctx struct {
 // Do executes one op line on the implementation and records line + observation.
 func (c *Ctx) Do(line string) string {
 	if c.Guard {
-		c.R.Pending(line)
+		c.R.Pending(strings.Join(append(c.R.CurrentOps(), line), "\n"))
 	}
 	obs, viol := c.E.Exec(line)
 	c.R.Op(line, obs)
